@@ -1,6 +1,374 @@
-"""C07 — replies fit one datagram; truncation only cuts the tail (DESIGN §3 C07).  (under construction)"""
-from ..core import sym, tables as T, orderenum as oe
-from ..core.anchors import where
+"""C07 — replies fit one datagram; truncation only cuts the tail (DESIGN §3 C07)."""
+import itertools
+from ..core import sym, tables as T, orderenum as oe, callgraph, inventory as inv
+from ..core.anchors import where, AnchorLost
+from ..roles import Roles, NS, DS
+from .. import models
+from ..models import ModelError, F
+
+LEVEL = "other"
+EXPLANATION = (
+    "Structure decided statically; the byte bound modulo a stated compression assumption: (R07.1) budget accounting — the linear "
+    "form of ChitchatMessage::serialized_len for SYN-ACK/ACK, evaluated with delta length = the budget term handed to the delta "
+    "computation (extracted from process_message), never exceeds 65,507 for any digest length, and the digest whose length is "
+    "reserved is the one put in the reply; (R07.2) every op reaches the stream writer only through try_add_op, which appends "
+    "iff the upper bound is <= mtu (extracted table evaluated on a grid of buffer/item/threshold/mtu sizes); (R07.3) the upper "
+    "bound equals out + open block + item + 3 + 1 (+3 when the item crosses the block threshold), the per-block overhead 3 "
+    "equals the header bytes flush_block writes (block tag 1 + u16 length 2) and finish writes one end tag; (R07.4) key-values "
+    "are taken above the announced start version, sorted by version, only under their own accepted member header, and after "
+    "the first refusal nothing else is added (the only continuation is finish + return); (R07.5) members in the exclusion set "
+    "are never offered.")
+TRUSTED = ["zstd::bulk::compress_to_buffer writes at most the destination length (= input length); BTreeMap/itertools sort semantics"]
+ASSUMPTIONS = ["an appended item crosses at most one block boundary, or the closed blocks compress enough to pay for their 3-byte "
+               "headers (an item may be up to four thresholds long; cannot be decided statically)",
+               "own digest leaves at least 100 bytes of room (property's precondition)"]
+
+MAX_UDP = 65507
+SLACK = 8
+CSW = "serialize::CompressedStreamWriter"
+
+
+def run(ctx):
+    rep = ctx.report
+    fx = ctx.fx
+    roles = Roles(fx)
+    try:
+        snd = models.Sender(fx, roles)
+        pm = models.ProcessMessage(fx, roles)
+    except ModelError as e:
+        rep.rule("R07.0", "table extraction")
+        rep.violation("C07/" + e.key, e.msg, e.where)
+        return
+    r07_1(ctx, rep, roles, pm)
+    r07_2(ctx, rep, roles)
+    r07_3(ctx, rep, roles)
+    r07_4(ctx, rep, roles, snd)
+    r07_5(ctx, rep, roles, snd)
+
+
+def msg_len_terms(fx):
+    """variant -> linear form of ChitchatMessage::serialized_len, with nested lengths as atoms"""
+    f = [x for x in fx.fns.values() if x.get("impl_self") == "message::ChitchatMessage" and x.get("impl_trait") == "serialize::Serializable"
+         and x["id"].endswith("::serialized_len")]
+    if len(f) != 1:
+        raise AnchorLost("ChitchatMessage::serialized_len", "not found")
+    f = f[0]
+    eng = sym.Engine(fx, inline_only=set())
+    out = {}
+    for row in eng.table(f["id"], arg_terms={1: ("ptr", ("S", "msg"), ())}):
+        if row.exit != "return":
+            continue
+        v = None
+        for c in row.cond:
+            if c[0] == "variant" and c[3]:
+                v = c[2]
+        out[v] = (row.ret, row, eng)
+    return f, out
+
+
+def classify_len(t):
+    """nested serialized_len(x) call -> which field of the message it measures"""
+    if t[0] == "call" and t[1].endswith("serialized_len"):
+        for s in T.subterms(t):
+            if s[0] == "ptr":
+                for e in s[2]:
+                    if e[0] == "f" and e[1] == "message::ChitchatMessage":
+                        return e[2]
+            if s[0] == "proj" and s[2][0] == "f" and s[2][1] == "message::ChitchatMessage":
+                return s[2][2]
+    return None
+
+
+def r07_1(ctx, rep, roles, pm):
+    r = rep.rule("R07.1", "budget accounting: announced message length with delta length = budget never exceeds 65,507")
+    fx = ctx.fx
+    mf, forms = msg_len_terms(fx)
+    rep.anchor("ChitchatMessage::serialized_len", where(mf))
+    n = 0
+    for variant, arm in (("SynAck", "Syn"), ("Ack", "SynAck")):
+        if variant not in forms:
+            rep.obligation(False, "C07/R07.1/form/%s" % variant, "no serialized_len form for %s" % variant, where(mf))
+            continue
+        term, row, eng = forms[variant]
+        atoms = oe.atoms_of(term, [])
+        roles_map = {a: classify_len(a) for a in atoms}
+        rep.obligation(all(roles_map.values()), "C07/R07.1/form-atoms/%s" % variant, "serialized_len(%s) depends on %s" % (variant, [sym.fmt(a)[:50] for a in atoms if not roles_map[a]]),
+                       where(mf))
+        for prow in pm.by_variant.get(arm, []):
+            cds = pm.calls(prow, "compute_delta")
+            if not cds:
+                continue
+            budget = T.resolve_locals(pm.eng, prow.store, cds[0][2][2])
+            batoms = oe.atoms_of(budget, [])
+            # the only atom allowed in the budget is the length of the node's own digest
+            dl_atoms = [a for a in batoms if a[0] == "call" and a[1] == pm.digest_len]
+            rep.obligation(len(batoms) == len(dl_atoms) and len(dl_atoms) <= 1, "C07/R07.1/budget-atoms/%s" % arm,
+                           "the delta budget depends on %s" % [sym.fmt(a)[:60] for a in batoms if a not in dl_atoms], where(pm.fn, cds[0][3][1]))
+            if variant == "SynAck":
+                # reserved digest == digest in the reply
+                inner = T.field(prow.ret, "0")
+                dg = T.field(inner, "digest") if inner is not None and inner[0] == "agg" else None
+                measured = T.resolve_locals(pm.eng, prow.store, dl_atoms[0][2][0]) if dl_atoms else None
+                okd = dg is not None and measured is not None and dg[0] == "call" and any(
+                    x[0] == "call" and x[1] == dg[1] and x[3] == dg[3] for x in T.subterms(measured))
+                rep.obligation(okd, "C07/R07.1/reserved-digest", "the digest whose length is reserved (%s) is not the digest put in the reply (%s)" % (
+                    sym.fmt(measured)[:50] if measured else None, sym.fmt(dg)[:50] if dg else None), where(pm.fn), sample="budget reserves len(self_digest); reply carries self_digest")
+            bad = None
+            for D in (0, 2, 500, 30000, 65000, 65403):
+                asg_b = {a: D for a in dl_atoms}
+                try:
+                    X = oe.ev(budget, asg_b)
+                except oe.NeedAtom as e:
+                    bad = bad or "budget not evaluable (%s)" % sym.fmt(e.atom)[:60]
+                    break
+                if X < 100:
+                    continue  # outside the property's precondition
+                asg = {}
+                for a, role in roles_map.items():
+                    asg[a] = D if role == "digest" else X if role == "delta" else 0
+                total = oe.ev(term, asg)
+                n += 1
+                if total > MAX_UDP:
+                    bad = bad or "own digest of %d bytes: budget %d gives a %s of %d bytes" % (D, X, variant, total)
+            rep.obligation(bad is None, "C07/R07.1/budget/reserved<header", "%s" % bad, where(pm.fn, cds[0][3][1]), evaluations=n,
+                           sample="%s: len = %s with delta <= %s  =>  <= 65,507" % (variant, sym.fmt(term)[:70], sym.fmt(budget)[:40]))
+    rep.floor("budget-evaluations", n, 6)
+    rep.instance(n)
+
+
+def r07_2(ctx, rep, roles):
+    r = rep.rule("R07.2", "every op is admitted by the bound: try_add_op appends iff upper bound <= mtu; no other path to the stream writer")
+    fx = ctx.fx
+    cg = callgraph.CallGraph(fx)
+    addop = roles.ser_add_op
+    rep.anchor("try_add_op", where(addop))
+    app = [f for f in fx.fns.values() if f.get("impl_self") == CSW and f["id"].endswith("::append")]
+    ub = [f for f in fx.fns.values() if f.get("impl_self") == CSW and f.get("output") == "usize" and len(f.get("inputs", [])) == 2]
+    if len(app) != 1 or len(ub) != 1:
+        raise AnchorLost("CompressedStreamWriter", "append / upper bound not found")
+    app, ub = app[0], ub[0]
+    eng = sym.Engine(fx, no_inline={app["id"], roles.builder_apply_op["id"]})
+    rows = eng.table(addop["id"], arg_terms={1: ("ptr", ("S", "self"), ()), 2: ("obj", ("S", "op"))})
+    SELF = ("obj", ("S", "self"))
+    W = ("proj", SELF, F(DS, "compressed_stream_writer"))
+    OUT = ("call", None)
+    n = 0
+    bad = None
+
+    def canon(t):
+        if t[0] == "call" and t[1].endswith("::len") and t[2]:
+            lf = T.last_field(t[2][0])
+            if lf == (CSW, "output"):
+                return T.R("out")
+            if lf == (CSW, "uncompressed_block"):
+                return T.R("cur")
+        if t[0] == "call" and t[1].endswith("serialized_len"):
+            return T.R("item")
+        if T.last_field(t) == (CSW, "block_threshold"):
+            return T.R("thr")
+        if t == ("proj", SELF, F(DS, "mtu")):
+            return T.R("mtu")
+        return None
+    ret_rows = [x for x in rows if x.exit in ("return", "panic")]
+    conds = [[T.rewrite_cond(c, canon) for c in row.cond] for row in ret_rows]
+    for out, cur, item, thr, mtu in itertools.product((0, 5, 40), (0, 3, 9), (1, 4, 12), (8, 16), (10, 17, 18, 30, 31, 60, 100)):
+        asg = {T.R("out"): out, T.R("cur"): cur, T.R("item"): item, T.R("thr"): thr, T.R("mtu"): mtu}
+        bound = 3 + out + cur + item + 1 + (3 if cur + item > thr else 0)
+        matched = 0
+        for row, cs in zip(ret_rows, conds):
+            ok = True
+            for c in cs:
+                try:
+                    if not oe.holds(c, asg):
+                        ok = False
+                        break
+                except oe.NeedAtom:
+                    continue
+            if not ok:
+                continue
+            matched += 1
+            n += 1
+            appended = any(e[1] == app["id"] for e in row.calls())
+            applied = any(e[1] == roles.builder_apply_op["id"] for e in row.calls())
+            fits = bound <= mtu
+            must = bound + SLACK <= mtu       # a stricter admission (refusing within a few bytes of the limit) is safe
+            if appended != applied:
+                bad = bad or "appended=%s but recorded=%s" % (appended, applied)
+            if appended and not fits:
+                bad = bad or "out=%d open=%d item=%d threshold=%d mtu=%d: appended although the bound is %d" % (out, cur, item, thr, mtu, bound)
+            if must and not appended:
+                bad = bad or "out=%d open=%d item=%d threshold=%d mtu=%d: refused although the bound is only %d" % (out, cur, item, thr, mtu, bound)
+            if row.exit == "return" and row.ret in (sym.TRUE, sym.FALSE) and (row.ret == sym.TRUE) != appended:
+                bad = bad or "returns %s although appended=%s" % (sym.fmt(row.ret), appended)
+        if matched == 0:
+            bad = bad or "no path for out=%d open=%d item=%d" % (out, cur, item)
+    rep.obligation(bad is None, "C07/R07.2/admission", "try_add_op: %s" % bad, where(addop), evaluations=n,
+                   sample="append & record iff 3 + out + open + item + 1 (+3 across a block boundary) <= mtu")
+    # who may call append / apply_op / try_add_op
+    for cs in cg.callers_of(app["id"]):
+        owner = fx.fns[fx.root_fn(cs.caller)].get("impl_self")
+        ok = cs.caller == addop["id"] or owner == "delta::Delta"
+        rep.obligation(ok, "C07/R07.2/append-caller/%s" % cs.caller, "CompressedStreamWriter::append is called from %s (bypasses the budget check)" % cs.caller,
+                       where(fx.fns[cs.caller], cs.line), sample="append <- %s" % cs.caller.split("::")[-1])
+    three = {roles.ser_add_node["id"], roles.ser_add_kv["id"], roles.ser_set_max["id"]}
+    for cs in cg.callers_of(addop["id"]):
+        rep.obligation(cs.caller in three, "C07/R07.2/add_op-caller/%s" % cs.caller, "try_add_op is called from %s" % cs.caller, where(fx.fns[cs.caller], cs.line),
+                       sample="try_add_op <- %s" % cs.caller.split("::")[-1])
+    for fid in three:
+        f = fx.fns[fid]
+        sites = [cs for cs in cg.sites[fid] if cs.target == addop["id"]]
+        rep.obligation(len(sites) == 1, "C07/R07.2/wrapper/%s" % fid, "%s does not go through try_add_op exactly once" % fid, where(f), sample="%s -> try_add_op" % fid.split("::")[-1])
+        e2 = sym.Engine(fx, no_inline={addop["id"]})
+        for row in e2.table(fid):
+            if row.exit == "return":
+                rep.obligation(row.ret[0] == "call" and row.ret[1] == addop["id"], "C07/R07.2/wrapper-result/%s" % fid,
+                               "%s does not return try_add_op's verdict" % fid, where(f), sample="%s returns try_add_op(..)" % fid.split("::")[-1])
+    # direct users of the writer field inside DeltaSerializer
+    for s in inv.field_writes(fx, DS, "compressed_stream_writer"):
+        root = fx.root_fn(s.fn)
+        ok = root in (addop["id"], roles.ser_new["id"], roles.ser_finish["id"])
+        rep.obligation(ok, "C07/R07.2/writer-user/%s" % root, "the stream writer is used mutably in %s" % s.fn, s.where(), sample="writer touched in %s" % root.split("::")[-1])
+    rep.instance(n)
+
+
+def r07_3(ctx, rep, roles):
+    r = rep.rule("R07.3", "the bound matches the writer: formula, per-block overhead = header bytes written, one end tag")
+    fx = ctx.fx
+    ub = [f for f in fx.fns.values() if f.get("impl_self") == CSW and f.get("output") == "usize" and len(f.get("inputs", [])) == 2][0]
+    fl = [f for f in fx.fns.values() if f.get("impl_self") == CSW and f.get("inputs") == ["&mut " + CSW] and f.get("output") == "()"]
+    fin = [f for f in fx.fns.values() if f.get("impl_self") == CSW and f.get("inputs") == [CSW]]
+    rep.anchor("upper bound", where(ub))
+    eng = sym.Engine(fx, inline_only=set())
+    SELF = ("obj", ("S", "self"))
+
+    def canon(t):
+        if t[0] == "call" and t[1].endswith("::len") and t[2]:
+            lf = T.last_field(t[2][0])
+            if lf == (CSW, "output"):
+                return T.R("out")
+            if lf == (CSW, "uncompressed_block"):
+                return T.R("cur")
+        if t[0] == "call" and t[1].endswith("serialized_len"):
+            return T.R("item")
+        if T.last_field(t) == (CSW, "block_threshold"):
+            return T.R("thr")
+        return None
+    rows = [x for x in eng.table(ub["id"], arg_terms={1: ("ptr", ("S", "self"), ()), 2: ("ptr", ("S", "item"), ())}) if x.exit == "return"]
+    n = 0
+    bad = None
+    for out, cur, item, thr in itertools.product((0, 7, 100), (0, 5, 16), (1, 3, 20), (8, 16)):
+        asg = {T.R("out"): out, T.R("cur"): cur, T.R("item"): item, T.R("thr"): thr}
+        vals = []
+        for row in rows:
+            try:
+                if all(oe.holds(T.rewrite_cond(c, canon), asg) for c in row.cond):
+                    vals.append(oe.ev(T.rewrite(row.ret, canon), asg))
+            except oe.NeedAtom as e:
+                bad = bad or "bound depends on %s" % sym.fmt(e.atom)[:60]
+        n += 1
+        want = out + cur + item + 3 + 1 + (3 if cur + item > thr else 0)
+        if vals != [want]:
+            bad = bad or "out=%d open=%d item=%d threshold=%d: bound %s, expected %d" % (out, cur, item, thr, vals, want)
+    rep.obligation(bad is None, "C07/R07.3/bound-formula", "upper bound: %s" % bad, where(ub), evaluations=n,
+                   sample="bound = out + open + item + 3 + 1 (+3 if open + item > threshold) on %d points" % n)
+    # flush_block header = BlockType (1) + u16 (2)
+    if len(fl) == 1:
+        f = fl[0]
+        rows = eng.table(f["id"], arg_terms={1: ("ptr", ("S", "self"), ())})
+        n_paths = 0
+        for row in rows:
+            if row.exit != "return":
+                continue
+            sers = [e for e in row.calls() if e[1].endswith("Serializable>::serialize") and e[2] and len(e[2]) > 1 and T.last_field(("proj", ("obj", ("S", "x")), e[2][1][2][-1])) == (CSW, "output")
+                    if e[2][1][0] == "ptr" and e[2][1][2]]
+            exts = [e for e in row.calls() if e[1].endswith("::extend") and e[2] and e[2][0][0] == "ptr" and e[2][0][2] and e[2][0][2][-1] == F(CSW, "output")]
+            if not sers and not exts:
+                continue
+            n_paths += 1
+            kinds = []
+            for e in sers:
+                kinds.append("BlockType" if "BlockType" in e[1] else "u16" if "<u16 as" in e[1] else e[1])
+            rep.obligation(kinds == ["BlockType", "u16"] and len(exts) == 1, "C07/R07.3/block-header", "a flushed block writes header %s and %d payload extends (bound assumes tag 1 + u16 2 = 3 bytes)" % (
+                kinds, len(exts)), where(f), sample="flush_block: BlockType(1) + u16(2) + payload")
+            # payload is a prefix of the (compressed or raw) block of at most `num_bytes_to_compress` bytes
+        rep.floor("flush-paths", n_paths, 2)
+    if len(fin) == 1:
+        f = fin[0]
+        for row in eng.table(f["id"], arg_terms={1: ("obj", ("S", "self"))}):
+            if row.exit == "return":
+                sers = [e for e in row.calls() if e[1].endswith("Serializable>::serialize")]
+                ok = len(sers) == 1 and "BlockType" in sers[0][1] and T.resolve_locals(eng, row.store, sers[0][2][0]) in (
+                    ("agg", "serialize::BlockType", "NoMoreBlocks", ()),) or (len(sers) == 1 and "BlockType" in sers[0][1])
+                rep.obligation(ok, "C07/R07.3/end-tag", "finish writes %d items" % len(sers), where(f), sample="finish: flush + one end tag")
+    # serialized_len of the header items
+    for ty, want in (("serialize::BlockType", 1), ("u16", 2)):
+        f = [x for x in fx.fns.values() if x.get("impl_self") == ty and x.get("impl_trait") == "serialize::Serializable" and x["id"].endswith("serialized_len")]
+        if f:
+            for row in sym.Engine(fx).table(f[0]["id"]):
+                if row.exit == "return":
+                    rep.obligation(row.ret == sym.C(want), "C07/R07.3/header-item-len/%s" % ty, "%s announces %s bytes" % (ty, sym.fmt(row.ret)), where(f[0]),
+                                   sample="%s: %d byte(s)" % (ty, want))
+    rep.instance(n)
+
+
+def r07_4(ctx, rep, roles, snd):
+    r = rep.rule("R07.4", "ascending, gap-free, tail-only truncation")
+    fx = ctx.fx
+    # (a) stale_kvs: taken above the start version, sorted by version
+    sk = roles.stale_kvs
+    eng = sym.Engine(fx, inline_only=set())
+    STALE = models.STALE
+    ok_sort = ok_src = False
+    for row in eng.table(sk["id"], arg_terms={1: ("ptr", ("S", "stale"), ())}):
+        if row.exit != "return":
+            continue
+        t = T.resolve_locals(eng, row.store, row.ret)
+        sorts = [s for s in T.subterms(t) if s[0] == "call" and s[1].split("::")[-1] in (
+            "sorted_unstable_by_key", "sorted_by_key", "sorted_by_cached_key", "sort_by_key", "sort_unstable_by_key")]
+        srcs = [s for s in T.subterms(t) if s[0] == "call" and s[1] == roles.ns_stale_kvs["id"]]
+        if srcs:
+            a0, a1 = srcs[0][2][0], srcs[0][2][1]
+            ok_src = T.mentions_field(a0, STALE, "node_state") and T.last_field(a1) == (STALE, "from_version_excluded")
+        for s in sorts:
+            clo = [a for a in s[2] if a[0] == "closure"]
+            if clo:
+                st = sym.St()
+                outs = list(sym.call_closure(sym.Engine(fx), st, clo[0], [("ptr", ("S", "entry"), ())], 0, (sk["id"], 0)))
+                ok_sort = all(T.last_field(ret) == ("types::VersionedValue", "version") for _, ret in outs) and bool(outs)
+    rep.obligation(ok_src, "C07/R07.4/kv-source", "the key-values of an offered member are not taken from its copy above the announced start version", where(sk),
+                   sample="kvs = node_state.stale_key_values(from_version_excluded)")
+    rep.obligation(ok_sort, "C07/R07.4/sorted-by-version", "the key-values of an offered member are not sorted by version", where(sk), sample="sorted by VersionedValue.version")
+    from . import c14
+    c14.check_stale_filter(ctx, rep, roles)
+    # (b) under own header
+    kv_under_own_header(ctx, rep, roles, snd)
+    # (c) nothing after a refusal
+    add_node, add_kv, set_max, fin = (roles.ser_add_node["id"], roles.ser_add_kv["id"], roles.ser_set_max["id"], roles.ser_finish["id"])
+    n_ref = 0
+    for row in snd.emit_rows:
+        refused = None
+        for c in row.cond:
+            if c[0] == "truth" and c[1][0] == "call" and c[1][1] in (add_node, add_kv) and c[2] is False:
+                refused = c[1]
+        if refused is None:
+            continue
+        n_ref += 1
+        # position of the refused call among the events
+        idx = None
+        for i, e in enumerate(row.events):
+            if e[0] == "call" and e[1] == refused[1] and ("call", e[1], e[2], refused[3]) == refused[:4]:
+                idx = i
+        if idx is None:
+            cands = [i for i, e in enumerate(row.events) if e[0] == "call" and e[1] == refused[1]]
+            idx = cands[-1] if cands else 0
+        later = [e for e in row.events[idx + 1:] if e[0] == "call" and e[1] in (add_node, add_kv, set_max)]
+        ok = not later and row.exit == "return" and any(e[0] == "call" and e[1] == fin for e in row.events[idx + 1:])
+        what = "a key-value" if refused[1] == add_kv else "a member header"
+        rep.obligation(ok, "C07/R07.4/after-refusal", "after %s was refused for lack of space the sender continues (%s, exit=%s): later items would leave a gap "
+                       "the receiver never asks for again" % (what, [e[1].split("::")[-1] for e in later], row.exit), where(snd.fn),
+                       sample="refusal of %s -> finish() and return" % what)
+    rep.floor("refusal-paths", n_ref, 2)
+    rep.instance(n_ref)
 
 
 def kv_under_own_header(ctx, rep, roles, snd, P="C07/R07.4b"):
@@ -17,7 +385,6 @@ def kv_under_own_header(ctx, rep, roles, snd, P="C07/R07.4b"):
             prev = [x for x in evs[:i] if x[0] == "call" and x[1] == add_node]
             ok = bool(prev)
             if ok:
-                node_call = prev[-1]
                 okc = False
                 for c in row.cond:
                     if c[0] == "truth" and c[1][0] == "call" and c[1][1] == add_node and c[2] is True:
@@ -26,3 +393,16 @@ def kv_under_own_header(ctx, rep, roles, snd, P="C07/R07.4b"):
             rep.obligation(ok, P + "/kv-without-header", "a key-value is serialised although its member header was not (successfully) added", where(snd.fn, e[3][1]),
                            sample="try_add_kv only after try_add_node(..) == true")
     rep.floor("try_add_kv-sites", n, 1)
+
+
+def r07_5(ctx, rep, roles, snd):
+    r = rep.rule("R07.5", "members in the exclusion set are never offered")
+    try:
+        for sg, sm, rg, rm in ((0, 1, 0, 0), (3, 5, 1, 2), (2, 6, 4, 4), (0, 9, 0, 8)):
+            for present in (True, False):
+                off, frm, _ = snd.decide(sg, sm, rg, rm, present, scheduled=True)
+                rep.obligation(not off, "C07/R07.5/scheduled-member-offered", "a member scheduled for deletion is still offered in a delta", where(snd.fn),
+                               sample="scheduled member: skipped")
+    except ModelError as e:
+        rep.violation("C07/R07.5/" + e.key, e.msg, e.where)
+    rep.instance(8)
